@@ -245,6 +245,7 @@ func runC01(tier string, _ []string) int {
 						return
 					}
 				}
+				model2 := newestModel{} // edge points of the second placement (its own identities, its own newest)
 				placeAlt := func() bool {
 					if e, err := vlib.SendAck(nc, vlib.EdgeSubj(id, alt), data.Points{{Type: data.PointTypeTombstone, Time: time.Unix(1700000001, 0)}, {Type: data.PointTypeNodeType, Text: "c01Node"}}); err != nil || e != "" {
 						c.Violate("store:legal-write-refused", fmt.Sprintf("mirror edge refused: %v %s", err, e), wit)
@@ -257,6 +258,7 @@ func runC01(tier string, _ []string) int {
 						}
 					}
 					wit["second_placement"] = map[string]any{"parent": alt, "before_batch": altAt, "moved": moved}
+					model2.deliver(data.Point{Type: data.PointTypeTombstone, Time: time.Unix(1700000001, 0)})
 					return true
 				}
 				model := newestModel{}
@@ -315,6 +317,37 @@ func runC01(tier string, _ []string) int {
 						break
 					}
 					c.Count("prefix_comparisons", 1)
+					if altPlaced && edge && r.Chance(0.6) {
+						// the other placement gets edge points of the same identities with other timestamps:
+						// each edge keeps its own newest point per identity
+						var b2 data.Points
+						for q := 0; q < 1+r.Intn(4); q++ {
+							p := set[r.Intn(len(set))]
+							off := int64(bi*104729 + q*7919 + 1)
+							if r.Chance(0.7) {
+								off = -off
+							}
+							ns := p.Time.UnixNano() + off
+							if ns == 0 {
+								ns = 1
+							}
+							p.Time = time.Unix(0, ns)
+							p.Value = float64(bi*10 + q)
+							b2 = append(b2, p)
+						}
+						e, err := vlib.SendAck(nc, vlib.EdgeSubj(id, alt), b2)
+						c.Eval(1)
+						wit["other_edge_batch"] = witnessPoints(b2)
+						if err != nil || e != "" {
+							c.Violate("store:legal-write-refused", fmt.Sprintf("edge points for the second placement refused: %v %s", err, e), wit)
+							ok = false
+							break
+						}
+						for _, p := range b2 {
+							model2.deliver(p)
+						}
+						c.Count("batches_to_the_second_edge", 1)
+					}
 					if altPlaced {
 						// the same node through its other placement, through parent "all" and in the group's child list
 						reads := map[string][]data.NodeEdge{}
@@ -338,6 +371,12 @@ func runC01(tier string, _ []string) int {
 								case n.Parent == parent:
 									got = n.EdgePoints
 								default:
+									// the other edge: its own model
+									if sig, what := storedDiff(model2, n.EdgePoints, true); sig != "" {
+										wit["read"] = witnessPoints(n.EdgePoints)
+										c.Violate(sig, fmt.Sprintf("after batch %d of %d, edge points of the second placement (below %s) read through %s: %s", bi+1, len(batches), n.Parent, how, what), wit)
+										ok = false
+									}
 									continue
 								}
 								if sig, what := storedDiff(model, got, true); sig != "" {
